@@ -87,6 +87,13 @@ def programs(ctx):
         p.make(2, 'Money', F(5), 'Z3')
         p.bin('Add', 1, 2, 3)          # converter removed: mixing is rejected again
         progs.append(p.d())
+    # an amount with nine decimals divided by the quantum 1 (where the pinned decimalfp mis-divides, DESIGN 5.2)
+    p = Prog('c05-dep')
+    p.make(1, 'Money', F(41), 'Z0')
+    p.num(2, F(135, 512), 'frac')
+    p.bin('Mul', 1, 2, 3)
+    p.make(3, 'Money', F(10810546875, 10 ** 9), 'Z0')
+    progs.append(p.d())
     # random behaviours mixing every producing operation and SetMode (depth 12+)
     nrand = 150 if quick else 2500
     for j in range(nrand):
@@ -140,10 +147,16 @@ def run(ctx):
     # every DataVolume unit x producing operations x 8 modes on the predefined catalogue (BCalc.tla)
     from checks import bcalccheck
     bcalccheck.run_cases(ctx, bcalccheck.datavolume_cases(ctx), 'datavolume')
+    # exchange-rate application: exact product with the stored rate, rounded once (Money.tla, big naturals)
+    from checks import moneycheck
+    moneycheck.judge(ctx, moneycheck.apply_cases(ctx, random.Random(ctx.seed)), 'rate-application')
 
 
 def replay(ctx, rp):
     if str(rp['replay'].get('kind')).startswith('bcalc'):
         from checks import bcalccheck
         return bcalccheck.replay(ctx, rp)
+    if str(rp['replay'].get('kind')).startswith('money'):
+        from checks import c09
+        return c09.replay(ctx, rp)
     calccheck.replay(ctx, rp, sig)
